@@ -25,6 +25,9 @@ import (
 
 func init() {
 	ekit.Register("C13", ekit.Scenario{Name: "C13/pending-accepts", Run: runPending})
+	// C02: PUSH peers that connect while the accept loop is busy are each attached (none twice,
+	// none forgotten): every connected PULL peer is there to take messages
+	ekit.Register("C02", ekit.Scenario{Name: "C13/pending-accepts", Run: runPending})
 }
 
 func runPending(st *ekit.Stats, tier string) {
